@@ -94,6 +94,30 @@ def arg_mutations(fn, mod, model):
     params = {a.arg for a in fn.args.posonlyargs + fn.args.args + fn.args.kwonlyargs} - {"self", "cls"}
     consts = set(MODULE_MUTABLES.get(mod, []))
     roots = definite_aliases(fn, params | consts)
+    # an element taken out of a root (x = root[k], x = root.get(k, d)) is the caller's object too, when x is bound only there
+    changed = True
+    while changed:
+        changed = False
+        for x in ast.walk(fn):
+            if not (isinstance(x, ast.Assign) and len(x.targets) == 1 and isinstance(x.targets[0], ast.Name) and x.targets[0].id not in roots):
+                continue
+            v = x.value
+            src = None
+            if isinstance(v, ast.Subscript) and not isinstance(v.slice, ast.Slice):
+                src = v.value
+            elif isinstance(v, ast.Call) and isinstance(v.func, ast.Attribute) and v.func.attr in ("get", "setdefault") and v.args:
+                src = v.func.value
+            b = base_name(src) if src is not None else None
+            if b is None or b not in roots or b in ("self", "cls"):
+                continue
+            tname = x.targets[0].id
+            binds = [y for y in ast.walk(fn) if (isinstance(y, (ast.Assign, ast.AugAssign, ast.AnnAssign, ast.For, ast.comprehension, ast.NamedExpr, ast.withitem)) and y is not x
+                     and any(isinstance(z, ast.Name) and z.id == tname and isinstance(z.ctx, ast.Store) for t in
+                             (y.targets if isinstance(y, ast.Assign) else [getattr(y, "target", None) or getattr(y, "optional_vars", None)]) if t is not None for z in ast.walk(t)))]
+            if binds:
+                continue
+            roots[tname] = roots[b]
+            changed = True
     # shallow copies ({**a}, dict(a), a.copy(), copy.copy(a), list(a), a[:]) are fresh one level deep only: what they
     # contain is still the original's; an element taken out of one is an alias of the original's element
     shallow = {}
